@@ -4,7 +4,7 @@ use crate::calloc;
 use crate::engine::{from_case, to_case, Outcome, Plan, Prop, Tier};
 use crate::ledger::{self, Tracked};
 use crate::memsrc::{MemSource, OwnedEntry, Variant};
-use assets_manager::{loader::Loader, Asset, AssetCache, BoxedError, Handle, Storable};
+use assets_manager::{loader::Loader, AnyCache, Asset, AssetCache, BoxedError, Handle, LocalAssetCache, Storable};
 use proptest::prelude::*;
 use serde::{Deserialize, Serialize};
 use serde_json::Value;
@@ -63,6 +63,24 @@ impl HV {
     }
     fn valid(&self) -> bool {
         self.data.len() == 1 + (self.tok.token % 97) as usize && self.data.iter().all(|b| *b == (self.tok.token % 251) as u8)
+    }
+}
+
+/// The tracked value with this token panics in its destructor, once (0 = nobody).
+static PANIC_ON_DROP: AtomicU64 = AtomicU64::new(0);
+fn maybe_panic_in_drop(token: u64) {
+    if token != 0 && !std::thread::panicking() && PANIC_ON_DROP.compare_exchange(token, 0, SeqCst, SeqCst).is_ok() {
+        panic!("the destructor of the value replaced by a reload panics");
+    }
+}
+impl Drop for HV {
+    fn drop(&mut self) {
+        maybe_panic_in_drop(self.tok.token);
+    }
+}
+impl Drop for A64 {
+    fn drop(&mut self) {
+        maybe_panic_in_drop(self.tok.token);
     }
 }
 
@@ -163,6 +181,8 @@ pub enum Op {
     Reload(T, u8),
     /// a failing reload: the old value stays
     BadReload(T, u8),
+    /// a reload in which the destructor of the replaced value panics (tracked layouts)
+    PanickyReload(T, u8),
     /// a reader holds a guard across a reload
     GuardedReload(T, u8, u8),
     /// `n` threads load the (uncached) key at the same instant
@@ -175,6 +195,10 @@ pub enum Op {
 pub struct Case {
     ops: Vec<Op>,
     hot: bool,
+    /// afterwards: 2..4 workers insert and load through the AnyCache view of a LocalAssetCache - on threads
+    /// if (and only if) `AnyCache` is `Send + Sync`, one after the other otherwise
+    #[serde(default)]
+    local_any_workers: u8,
 }
 
 const NIDS: u8 = 3;
@@ -344,7 +368,7 @@ fn wrong_views<A: Asset>(cache: &AssetCache<MemSource>, id: &str, out: &mut Outc
     }
 }
 
-fn run_case(c: &Case, out: &mut Outcome, flags: &mut (bool, bool, bool)) {
+fn run_case(c: &Case, out: &mut Outcome, flags: &mut (bool, bool, bool, bool)) {
     let src = MemSource::new(c.hot);
     {
         let mut t = src.tree();
@@ -359,6 +383,7 @@ fn run_case(c: &Case, out: &mut Outcome, flags: &mut (bool, bool, bool)) {
     let mut version = 0u32;
     for (step, op) in c.ops.iter().enumerate() {
         let what = format!("{op:?}");
+        crate::tracelog::note(format!("step {step} {what}"));
         match op {
             Op::Load(t, n) => {
                 let id = format!("k{n}");
@@ -447,14 +472,23 @@ fn run_case(c: &Case, out: &mut Outcome, flags: &mut (bool, bool, bool)) {
                 st.cached.clear();
                 st.was_reloaded.clear();
             }
-            Op::Reload(t, n) | Op::BadReload(t, n) => {
+            Op::Reload(t, n) | Op::BadReload(t, n) | Op::PanickyReload(t, n) => {
                 let id = format!("k{n}");
                 let bad = matches!(op, Op::BadReload(..));
-                if let Some((_, true)) = st.cached.get(&(*t, *n)).copied() {
+                if let Some((tok_before, true)) = st.cached.get(&(*t, *n)).copied() {
+                    if matches!(op, Op::PanickyReload(..)) {
+                        match tok_before {
+                            Some(tok) => {
+                                PANIC_ON_DROP.store(tok, SeqCst);
+                                flags.3 = true;
+                            }
+                            None => continue,
+                        }
+                    }
                     version += 1;
                     let before = by_type!(*t, reload_id_of, &cache, &id).unwrap();
                     src.tree().put(&id, t.ext(), if bad { b"bad".to_vec() } else { format!("v{version}").into_bytes() }, Variant::Buffer);
-                    src.send(&OwnedEntry::File(id.clone(), t.ext().to_string()));
+                    let sent_ok = src.send(&OwnedEntry::File(id.clone(), t.ext().to_string()));
                     if bad {
                         // a failed reload keeps (and does not drop) the old value; wait until the reloader has read the bad file
                         let _ = src.take_log();
@@ -473,7 +507,8 @@ fn run_case(c: &Case, out: &mut Outcome, flags: &mut (bool, bool, bool)) {
                         src.tree().put(&id, t.ext(), format!("v{version}").into_bytes(), Variant::Buffer);
                     } else {
                         if !by_type!(*t, wait_reload, &cache, &id, before) {
-                            out.fail("reload-lost", format!("step {step}: the notified change of ({t:?}, {id}) was never applied"));
+                            let threads: Vec<String> = crate::procfs::self_threads().iter().map(|t| format!("{}:{}", t.comm, t.state)).collect();
+                            out.fail("reload-lost", format!("step {step}: the notified change of ({t:?}, {id}) was never applied (event accepted by the channel: {sent_ok}; threads: {threads:?})"));
                             break;
                         }
                         st.reloads += 1;
@@ -488,6 +523,10 @@ fn run_case(c: &Case, out: &mut Outcome, flags: &mut (bool, bool, bool)) {
                             None => None,
                         };
                         st.cached.insert((*t, *n), (tok, true));
+                        if PANIC_ON_DROP.swap(0, SeqCst) != 0 {
+                            out.fail("replaced-value-not-dropped", format!("step {step}: the reload of ({t:?}, {id}) was applied but the destructor of the replaced value has not run"));
+                            break;
+                        }
                     }
                 }
             }
@@ -640,6 +679,85 @@ fn run_case(c: &Case, out: &mut Outcome, flags: &mut (bool, bool, bool)) {
     flags.0 = st.reloads > 0 && st.removed_reloaded || st.lost_race;
 }
 
+/// Runs `n` workers over `&T`: on threads when `T: Sync` (inherent method, preferred by method resolution),
+/// one after the other otherwise (trait method). Decided at compile time, so the harness compiles either way.
+struct Workers<'a, T>(&'a T);
+static WORKER_PANICS: AtomicUsize = AtomicUsize::new(0);
+trait RunSequentially<T> {
+    fn run(&self, n: usize, f: &(dyn Fn(&T, usize) + Sync)) -> bool;
+}
+impl<T> RunSequentially<T> for Workers<'_, T> {
+    fn run(&self, n: usize, f: &(dyn Fn(&T, usize) + Sync)) -> bool {
+        for i in 0..n {
+            f(self.0, i);
+        }
+        false
+    }
+}
+impl<T: Sync> Workers<'_, T> {
+    fn run(&self, n: usize, f: &(dyn Fn(&T, usize) + Sync)) -> bool {
+        let sb = super::common::SpinBarrier::new(n);
+        std::thread::scope(|s| {
+            for i in 0..n {
+                let (t, sb) = (self.0, &sb);
+                s.spawn(move || {
+                    sb.wait();
+                    if std::panic::catch_unwind(std::panic::AssertUnwindSafe(|| f(t, i))).is_err() {
+                        WORKER_PANICS.fetch_add(1, SeqCst);
+                    }
+                });
+            }
+        });
+        true
+    }
+}
+
+/// The AnyCache view of a LocalAssetCache used by several workers: every key ends up with exactly one live value.
+fn local_any_race(c: &Case, out: &mut Outcome) {
+    ledger::reset();
+    let src = MemSource::new(false);
+    for n in 0..8 {
+        src.tree().put(&format!("k{n}"), "hv", b"v0".to_vec(), Variant::Buffer);
+    }
+    let cache = LocalAssetCache::with_source(src);
+    let any: AnyCache = cache.as_any_cache();
+    let n = c.local_any_workers as usize;
+    let work = |any: &AnyCache, i: usize| {
+        for k in 0..300usize {
+            let h = any.get_or_insert(&format!("r{}", k % 40), HV::new());
+            h.read().tok.touch();
+            if let Ok(h) = any.load::<HV>(&format!("k{}", (k + i) % 8)) {
+                h.read().tok.touch();
+            }
+        }
+    };
+    WORKER_PANICS.store(0, SeqCst);
+    let threaded = Workers(&any).run(n, &work);
+    let alive = ledger::alive_tokens().len();
+    if WORKER_PANICS.load(SeqCst) != 0 {
+        out.fail("local-cache-race", format!("{n} workers on threads used the AnyCache view of a LocalAssetCache (AnyCache is Send + Sync): {} of them panicked inside the cache", WORKER_PANICS.load(SeqCst)));
+        std::mem::forget(cache);
+        return;
+    }
+    if alive != 48 || ledger::double_drops() != 0 || ledger::use_after_drop() != 0 {
+        out.fail(
+            "local-cache-race",
+            format!("{n} workers (on threads: {threaded}) inserted 40 keys and loaded 8 through the AnyCache view of a LocalAssetCache: {alive} tracked values are alive (expected 48), {} double drops, {} reads of dropped values", ledger::double_drops(), ledger::use_after_drop()),
+        );
+    }
+    drop(cache);
+    if !out.failed() && (ledger::alive_count() != 0 || ledger::double_drops() != 0) {
+        out.fail("final-drop-accounting", format!("after dropping the LocalAssetCache: {} tracked values alive, {} double drops", ledger::alive_count(), ledger::double_drops()));
+    }
+    if calloc::error_count() != 0 {
+        out.fail("allocator", calloc::describe_errors());
+    }
+    out.label("local-any-cache-workers");
+    if threaded {
+        out.label("any-cache-is-sync");
+    }
+}
+
 pub struct C13;
 
 fn t_s() -> impl Strategy<Value = T> {
@@ -656,6 +774,7 @@ fn op_strategy() -> impl Strategy<Value = Op> {
         1 => Just(Op::Clear),
         6 => (t_s(), 0..NIDS).prop_map(|(t, n)| Op::Reload(t, n)),
         1 => (t_s(), 0..NIDS).prop_map(|(t, n)| Op::BadReload(t, n)),
+        1 => (prop_oneof![Just(T::HV), Just(T::A64)], 0..NIDS).prop_map(|(t, n)| Op::PanickyReload(t, n)),
         2 => (t_s(), 0..NIDS, 0u8..5).prop_map(|(t, n, y)| Op::GuardedReload(t, n, y)),
         2 => (t_s(), 0..NIDS, 2u8..5).prop_map(|(t, n, k)| Op::RaceLoad(t, n, k)),
         2 => any::<u8>().prop_map(Op::DropOwned),
@@ -669,8 +788,8 @@ impl Prop for C13 {
     }
 
     fn rule(&self) -> String {
-        "cases = histories over 3 ids x four value layouts (zero-sized, one byte, heap-owning, 64-byte aligned; all assets) of load, load_owned, get_or_insert, remove, take, clear, successful and failing reloads, \
-         reloads while a reader thread holds a guard, 2..4 threads loading one uncached key at the same instant (rendezvous in the loader), dropping owned values, and wrong-type views of cached handles; with and without a reloader. \
+        "cases = histories over 3 ids x four value layouts (zero-sized, one byte, heap-owning, 64-byte aligned; all assets) of load, load_owned, get_or_insert, remove, take, clear, successful and failing reloads, reloads in which the destructor of the replaced value panics, \
+         reloads while a reader thread holds a guard, 2..4 threads loading one uncached key at the same instant (rendezvous in the loader), dropping owned values, and wrong-type views of cached handles; with and without a reloader; in a fifth of the cases 2..4 workers then use the AnyCache view of a LocalAssetCache (on threads iff AnyCache is Sync - decided at compile time - else sequentially). \
          Oracle after every step: the set of live tracked values equals exactly {values reachable through the cache} + {values owned by the caller} (drop ledger; counters for the untracked layouts), nothing dropped twice, nothing read after its drop, \
          content and alignment intact, racers agree on one handle and value, the value behind a live guard neither changes nor dies, take returns the stored value; untyped views answer is/downcast_ref/read().downcast true for the stored type only; \
          at the end everything is dropped exactly once and the checking allocator saw no bad free. \
@@ -693,7 +812,9 @@ impl Prop for C13 {
     }
 
     fn strategy(&self, _tier: Tier) -> BoxedStrategy<Value> {
-        (prop::collection::vec(op_strategy(), 2..40), prop::bool::weighted(0.85)).prop_map(|(ops, hot)| to_case(&Case { ops, hot })).boxed()
+        (prop::collection::vec(op_strategy(), 2..40), prop::bool::weighted(0.85), prop_oneof![4 => Just(0u8), 1 => 2u8..5])
+            .prop_map(|(ops, hot, local_any_workers)| to_case(&Case { ops, hot, local_any_workers }))
+            .boxed()
     }
 
     fn run(&self, case: &Value) -> Outcome {
@@ -703,7 +824,8 @@ impl Prop for C13 {
         calloc::reset_errors();
         Z_LIVE.store(0, SeqCst);
         B_LIVE.store(0, SeqCst);
-        let mut flags = (false, false, false);
+        let mut flags = (false, false, false, false);
+        PANIC_ON_DROP.store(0, SeqCst);
         run_case(&c, &mut out, &mut flags);
         out.nontrivial = flags.0;
         if flags.0 {
@@ -715,11 +837,17 @@ impl Prop for C13 {
         if flags.2 {
             out.label("wrong-type-views");
         }
+        if flags.3 {
+            out.label("replaced-value-destructor-panics");
+        }
+        if c.local_any_workers >= 2 && !out.failed() {
+            local_any_race(&c, &mut out);
+        }
         out
     }
 
     fn required_labels(&self) -> Vec<&'static str> {
-        vec!["reload-then-removal / lost-race", "guard-across-reload", "wrong-type-views"]
+        vec!["reload-then-removal / lost-race", "guard-across-reload", "wrong-type-views", "replaced-value-destructor-panics", "local-any-cache-workers"]
     }
 }
 
@@ -744,5 +872,5 @@ pub fn decode(u: &mut arbitrary::Unstructured) -> arbitrary::Result<Value> {
             _ => Op::WrongTypeViews(t, n),
         });
     }
-    Ok(to_case(&Case { ops, hot }))
+    Ok(to_case(&Case { ops, hot, local_any_workers: 0 }))
 }
